@@ -33,7 +33,7 @@ Next == /\ l <= Len(Rec)
                 /\ obs' = o1
                 /\ skip' = (o1.flags # {})
                 /\ cov' = [cov EXCEPT !.events = @ + 1, !.flagged = IF o1.flags # {} THEN @ + 1 ELSE @]
-                /\ (o1.flags = {} \/ PrintT(<<"FLAG", ToJson([run |-> e.run, i |-> e.i, ev |-> e.ev, flags |-> o1.flags, detail |-> ToString(Detail(o1, e))])>>))
+                /\ (o1.flags = {} \/ PrintT(<<"FLAG", ToJson([run |-> e.run, i |-> e.i, ev |-> e.ev, flags |-> o1.flags, detail |-> ToString(Detail(o1, e)), cause |-> Cause(obs, e)])>>))
 
 Spec == Init /\ [][Next]_vars
 
